@@ -246,7 +246,7 @@ func c24WaitDrained(got *[]c24Batch, mu *sync.Mutex, lastSeq int64, wantObjs int
 }
 
 func TestVerifC24(t *testing.T) {
-	rep := vfNewReport("C24", "A: generated single-writer scenarios (capacity 0-6, batch size -1..5, no timer, 0-40 Write/Flush ops, 0-3 objects per write, optional flush channel), diffed exactly, non-trivial when at least two batches were emitted and one was cut by a Flush; B: concurrent runs (2-5 writers x 5-40 writes, random flushes, 1-3 ms timer or none, fast or slow consumer) checked by the property and replayed on the model by a schedule constructed from the observation, non-trivial when batches of different sizes were emitted; distinct by emitted batch structure")
+	rep := vfNewReport("C24", "A: generated single-writer scenarios (capacity 0-6, batch size -1..5, no timer, 0-40 Write/Flush ops, 0-3 objects per write, optional flush channel), diffed exactly, non-trivial when at least two batches were emitted and one was cut by a Flush; B: concurrent runs (2-5 writers x 5-40 writes, random flushes, 1-3 ms timer or none, fast or slow consumer) checked by the property and replayed on the model by a schedule constructed from the observation, non-trivial when batches of different sizes were emitted; C: stalled-consumer scenarios (2-6 writes with pauses around a 1-3 ms timeout while nobody reads C, then the consumer starts; no Flush); distinct by emitted batch structure")
 	defer rep.Write()
 	// checkpoint: findings so far plus a crash marker are on disk while goroutines that could
 	// panic the process are running; the final Write (deferred) replaces it
@@ -560,6 +560,72 @@ func TestVerifC24(t *testing.T) {
 		if i == 0 {
 			rep.Sample(map[string]interface{}{"part": "B", "cap": maxSize, "batch_size": batchSize, "timeout_ns": int64(timeout), "group_sizes": shape})
 		}
+	}
+
+	// ---- C: stalled consumer, timer only (no Flush at all) ------------------------------
+	// Nobody reads C while a few writes arrive with pauses longer and shorter than the
+	// timeout (so the one-slot output channel fills and later timer expiries find it full);
+	// then the consumer starts. With a non-zero timeout every written element must come out
+	// without any Flush (theorem timer_drains_everything).
+	nC := vfScale(25, 600)
+	for i := 0; i < nC; i++ {
+		batchSize := 2 + r.Intn(5)
+		timeout := time.Duration(1+r.Intn(3)) * time.Millisecond
+		q := New[int](8+r.Intn(8), batchSize, timeout)
+		var writes []c24Write
+		nw := 2 + r.Intn(5)
+		nextObj := 1
+		var opsLog []string
+		for k := 0; k < nw; k++ {
+			objs := []int{nextObj}
+			nextObj++
+			if r.Bool() {
+				objs = append(objs, nextObj)
+				nextObj++
+			}
+			seq, err := q.Write(objs, nil)
+			if err != nil {
+				t.Fatalf("write: %v", err)
+			}
+			writes = append(writes, c24Write{seq: seq, objs: objs, flush: -1})
+			pause := time.Duration(r.Intn(4)) * timeout
+			opsLog = append(opsLog, fmt.Sprintf("write %s; pause %v", c24Ints(objs), pause))
+			time.Sleep(pause)
+		}
+		time.Sleep(3 * timeout) // the last partial batch's timer expires while nobody reads
+		stop := make(chan struct{})
+		got, mu, cdone := c24Consumer(q, stop, nil, nil)
+		wantObjs := nextObj - 1
+		deadline := time.Now().Add(10 * time.Second)
+		drained := false
+		for time.Now().Before(deadline) {
+			mu.Lock()
+			n := 0
+			for _, b := range *got {
+				n += len(b.objs)
+			}
+			mu.Unlock()
+			if n >= wantObjs {
+				drained = true
+				break
+			}
+			time.Sleep(300 * time.Microsecond)
+		}
+		close(stop)
+		<-cdone
+		q.Close()
+		replay := map[string]interface{}{"cap_batch_timeout": fmt.Sprintf("batchSize=%d timeout=%v", batchSize, timeout), "writes_while_nobody_reads_C": opsLog, "then": "consumer starts; no Flush"}
+		if !drained {
+			var gotObjs []int
+			for _, b := range *got {
+				gotObjs = append(gotObjs, b.objs...)
+			}
+			rep.Fail("C:written-elements-stranded-without-flush", fmt.Sprintf("timeout %v, batch size %d: %d elements written while the consumer was stalled, only %s came out within 10 s after it resumed (no Flush issued)", timeout, batchSize, wantObjs, c24Ints(gotObjs)), replay)
+		} else {
+			c24Check(rep, "C", batchSize, writes, *got, replay)
+		}
+		rep.Case(fmt.Sprintf("C:%d:%d:%d", batchSize, nw, len(*got)), len(*got) >= 2)
+		rep.Count("C:stalled-consumer-scenarios")
 	}
 
 	rep.vfCompareSegments("queue", allOps, allImpl)
